@@ -138,9 +138,14 @@ func fixMTrainPlatformsInBushwick(trip *gtfsrt.TripUpdate) {
 		if !buggyStationIDs[stopID[:3]] {
 			continue
 		}
-		newDirection := 'N'
-		if stopID[3] == 'N' {
+		var newDirection rune
+		switch stopID[3] {
+		case 'N':
 			newDirection = 'S'
+		case 'S':
+			newDirection = 'N'
+		default:
+			continue
 		}
 		newStopID := stopID[:3] + string(newDirection)
 		stopTimeUpdate.StopId = &newStopID
